@@ -801,3 +801,56 @@ def c20_special(pid, prop, tier, seed, b):
         failures.append((c, ['stress under the race detector failed: ' + stress_fail[-400:]]))
     return cases, impl_lines, failures, disagreements, dict(problems=problems, states=len(cases), transitions=sum(len(c['raw'].split(' ')[2].split(',')) for c in cases if 'raw' in c),
                                                              traces_validated_against_impl=len(cases))
+
+
+# ------------------------------------------------------------------ C16 concurrency of independent calls
+
+def c16_special(pid, prop, tier, seed, b):
+    rng = random.Random(seed * 1000003 + 16)
+    gomod = V + '/harness/race/go.mod'
+    txt = open(gomod).read()
+    want = re.sub(r'=> \S+', '=> ' + REPO, txt)
+    if want != txt:
+        open(gomod, 'w').write(want)
+    try:
+        shutil.copy(REPO + '/go.sum', V + '/harness/race/go.sum')
+        rc, out = infra.sh('cd %s/harness/race && go build -race -o %s/bin/racedrv .' % (V, V), env=dict(GOENV))
+    finally:
+        if want != txt:
+            open(gomod, 'w').write(txt)
+    if rc != 0:
+        return [], [], [], [], dict(problems=[('go-build', 'race driver does not build: ' + out[-800:])])
+    n = 40 if tier == 'quick' else 800
+    runs = []
+    for i in range(n):
+        runs.append((rng.randint(1, 10 ** 6), rng.choice([2, 8, 16, 64]), rng.choice([3, 10, 40])))
+
+    def one(r):
+        sd, g, k = r
+        try:
+            p = subprocess.run([V + '/bin/racedrv', str(sd), str(g), str(k), REPO + '/testdata'], stdout=subprocess.PIPE,
+                               stderr=subprocess.PIPE, timeout=300, env=dict(os.environ, GORACE='halt_on_error=0'))
+            return p.returncode, p.stdout.decode('latin-1')[-600:], p.stderr.decode('latin-1')
+        except subprocess.TimeoutExpired:
+            return None, 'TIMEOUT', ''
+    import concurrent.futures
+    with concurrent.futures.ThreadPoolExecutor(max_workers=8) as ex:
+        outs = list(ex.map(one, runs))
+    cases, failures, impl_lines = [], [], []
+    for r, (rc, so, se) in zip(runs, outs):
+        c = dict(line='racedrv %d %d %d' % r, text='fresh process: %d goroutines x %d random API calls from a cold start (seed %d)' % (r[1], r[2], r[0]),
+                 shape='g%d' % r[1], meta=dict(args=r), nontrivial=True, args=[], op='race', impl=(so + se)[-800:])
+        cases.append(c)
+        f = []
+        if rc is None:
+            f.append('did not terminate')
+        if 'DATA RACE' in se:
+            m = re.search(r'WARNING: DATA RACE(.*?)(?:==================|$)', se, re.S)
+            locs = re.findall(r'(\S+\.go:\d+)', m.group(1) if m else se)
+            f.append('data race on package-level state: ' + ' vs '.join(list(dict.fromkeys(locs))[:4]))
+        elif rc not in (0,):
+            f.append('results differ from the sequential run, or the process failed: ' + (so or se)[-300:])
+        impl_lines.append('OK' if not f else 'RACE' if 'DATA RACE' in se else 'FAIL')
+        if f:
+            failures.append((c, f))
+    return cases, impl_lines, failures, [], dict()
